@@ -307,6 +307,9 @@ EXTRA = (
     " | OSchemaParseError, OSchemaParseError => true | OAssertionError, OAssertionError => true | _, _ => false end.\n"
     "Definition chk (c : graph * list nat * oresult str) : bool := let '(g, r, e) := c in wf_graphb paths g && boundedb g r && ores_eqb (orderer paths g r) e.\n"
     "Definition show (c : graph * list nat * oresult str) := let '(g, r, e) := c in orderer paths g r.\n"
+    "(* false exactly when every premise of C11_end_to_end / C11_orderer_total holds on the graph *)\n"
+    "Definition noprem (c : graph * list nat * oresult str) : bool := let '(g, r, e) := c in\n"
+    "  negb (wf_graphb paths g && boundedb g r && match get_object_classes paths g r with Some ocs => uniq_namesb g ocs | None => false end).\n"
 )
 
 
@@ -382,6 +385,12 @@ def run(tier, seed, replay=None):
          "what": "model orderer and statham.serializers.orderer.orderer disagree on the yielded sequence / error"}
         for i in (mism or [])
     ]
+    # on how many of the compared graphs do the premises of the end-to-end theorem hold (evaluated in Coq)?
+    if err is None and not replay:
+        prem, _, perr = eval_mismatches(["Orderer"], "noprem", cases, extra=EXTRA, tag="c11p")
+        if perr is None:
+            res.coverage["end_to_end_theorem_applies"] = {"graphs": len(prem), "of": len(cases),
+                "premises": "wf_graphb && boundedb roots && uniq_namesb (object classes), evaluated by vm_compute"}
     res.coverage["distribution"] = stats
     res.coverage["traces_validated_against_impl"] = len(cases)
     res.coverage["rule"] = ("random class graphs (<=6 quick / <=12 thorough classes), every dependency wrapped into a random keyword "
